@@ -19,8 +19,8 @@ from .core import AnchorError, Unsupported
 from .e1_srcmodel import dotted
 from .c12_str import Unk, Const, Param, Opaque, Lit, Fmt, Cat, Strip, Slice, StrOf, CallS, Tup, Len, cat, as_int, is_str, is_num
 from .c12_exec import Engine, Interval, State, walk_value, _FLIP as _FLIPPED
-from .c12_text import (FIELD, is_field, field_of, atoms, width, all_blank, rstrip, slice_text, first_char, split_lines, split_commas,
-                       parse_fixed, FLOATW, BLANKS)
+from .c12_text import (FIELD, is_field, field_of, atoms, atom_width, width, all_blank, rstrip, slice_text, first_char, split_lines,
+                       split_commas, parse_fixed, FLOATW, BLANKS)
 
 BULK = "pyyeti/nastran/bulk.py"
 TYPES = {"str": "str", "np.str_": "str", "int": "int", "np.int32": "int", "np.int64": "int", "np.uint32": "int", "np.uint64": "int",
@@ -159,11 +159,27 @@ def trim(seq, blank):
     return seq
 
 
+def _free_width_field(p):
+    """the rendering of one symbolic field in as many characters as its value has"""
+    if isinstance(p, StrOf) and is_field(p.x):
+        return True
+    if isinstance(p, Strip) and p.chars is None:
+        return _free_width_field(p.s) or (isinstance(p.s, Fmt) and is_field(p.s.arg))
+    return isinstance(p, Fmt) and is_field(p.arg) and p.spec.width is None and p.spec.prec is None and p.spec.typ in ("s", "d", None)
+
+
 def check_grid(text, W, per, conchars, shape):
     """parse the written text on the reference grid -> problem text or None"""
     lines = split_lines(text)
     got = []
     for k, ln in enumerate(lines):
+        if atoms(ln) is None:
+            # a piece of the line has no known width.  A field rendered without a width (str(field), '{}'.format(field)) provably does not
+            # fill its slot for every value; any other piece is text this model does not understand - undecided, not a violation
+            odd = [p for p in (ln.parts if isinstance(ln, Cat) else (ln,)) if atom_width(p) is None]
+            if not all(_free_width_field(p) for p in odd):
+                raise Unsupported(f"line {k + 1} of the written text holds a piece of unknown layout ({', '.join(type(p).__name__ for p in odd[:3])})")
+            return f"line {k + 1}: a field is written without a fixed width"
         head, slots, problem = parse_fixed(ln, W, k == 0)
         if problem:
             return f"line {k + 1}: {problem}"
@@ -215,6 +231,8 @@ def run_reader(ctx, q, lines, n, conchar, fixed=True):
             if b is True:
                 return Const(None)
             at = atoms(x)
+            if at is None:
+                return Unk("nas_sscanf of text of unknown layout")
             fs = [field_of(a) for a, _ in (at or []) if field_of(a) is not None]
             if at is not None and len(fs) == 1 and all(isinstance(a, Lit) and a.s.strip(BLANKS) == "" for a, _ in at if field_of(a) is None):
                 return fs[0]
@@ -593,7 +611,11 @@ def r3_card_grid(ctx):
             except Unsupported as e:
                 ctx.error(f"{tag}: card of {desc}: the writer is not modelled", wfn, str(e))
                 continue
-            problem = check_grid(text, W, per, conch[W], shape)
+            try:
+                problem = check_grid(text, W, per, conch[W], shape)
+            except Unsupported as e:
+                ctx.error(f"{tag}: card of {desc}: the written text is not modelled", wfn, str(e))
+                continue
             ctx.check(problem is None, f"{tag}: card of {desc}: name in 8 columns, every field in its own {W}-wide slot, {per} per line, "
                                        f"continuation lines headed by 8 columns starting with a character the reader accepts", wfn, problem)
             if problem is not None:
